@@ -11,7 +11,7 @@ BASE = {
         "np_min": 1,
         "np_max": 4,
         "weights": {"set_value": 8, "set_initial": 0.5, "subject_to": 0.5, "clear_constraints": 0.2, "add_objective": 0.3, "solver": 0.2,
-                    "set_T": 0.2, "set_t0": 0.1, "late_sym": 0.1, "reject": 0.2, "save": 1, "load": 1, "method": 2, "callback": 0},
+                    "set_T": 0.2, "set_t0": 0.1, "late_sym": 0.1, "reject": 0.2, "save": 1, "load": 1, "method": 2, "callback": 0, "catsave": 1},
         "p_real": 0.15,
     },
     "C10": {
@@ -24,7 +24,7 @@ BASE = {
     "C18": {
         "max_steps": 14,
         # (a registered callback is a Python closure; pickling user functions is outside C18's feature list)
-        "weights": {"save": 5, "load": 5, "callback": 0, "set_value": 5},
+        "weights": {"save": 5, "load": 5, "callback": 0, "set_value": 5, "catsave": 2},
         "np_min": 2,
         "p_real": 0.15,
     },
